@@ -78,11 +78,28 @@ def regsS (j : Json) (k : String) : List (String × H) :=
     | .arr a => ((a[0]?.bind (·.getStr?.toOption)).getD "", (a[1]?.bind (·.getNat?.toOption)).getD 0)
     | _ => ("", 0)
 
+/-- history `[["add",name,h] | ["del",name,h] | ["clear",name] ...]` -/
+def opsS (j : Json) (k : String) : List (Op String) :=
+  (getArr j k).toList.map fun p =>
+    match p with
+    | .arr a =>
+      let kind := (a[0]?.bind (·.getStr?.toOption)).getD ""
+      let name := (a[1]?.bind (·.getStr?.toOption)).getD ""
+      let h := (a[2]?.bind (·.getNat?.toOption)).getD 0
+      if kind == "del" then .del name h else if kind == "clear" then .clear name else .add name h
+    | _ => .clear ""
+
+/-- which removals of the history raise KeyError (handler not registered at that moment) -/
+def keyErrors (m : Mgr String) : List (Op String) → List Bool
+  | [] => []
+  | op :: ops =>
+    (match op with | .del e h => m.delRaises e h | _ => false) :: keyErrors (m.applyOp op) ops
+
 /-- manager spec `{"bases":[spec...], "regs":[[name,h]...]}`: the bases as they were when the class was
     created, then the class's own registrations -/
 partial def mgrS (j : Json) : Mgr String :=
   let bases := (getArr j "bases").toList.map mgrS
-  (Mgr.inherit bases).addAll (regsS j "regs")
+  ((Mgr.inherit bases).addAll (regsS j "regs")).applyAll (opsS j "ops")
 
 def mgrE (j : Json) : Mgr Event :=
   let m := mgrS j
@@ -128,7 +145,10 @@ def step (j : Json) : Json :=
   | "mgr" =>
     let m := mgrS (getObj j "mgr")
     let qs := (getArr j "query").toList.map fun q => q.getStr?.toOption.getD ""
-    Json.mkObj [("ok", Json.arr (qs.map fun q => Json.arr ((m.fire q).map fun (h : Nat) => Json.num (JsonNumber.fromNat h)).toArray).toArray)]
+    let spec := getObj j "mgr"
+    let m0 := (Mgr.inherit ((getArr spec "bases").toList.map mgrS)).addAll (regsS spec "regs")
+    Json.mkObj [("ok", Json.arr (qs.map fun q => Json.arr ((m.fire q).map fun (h : Nat) => Json.num (JsonNumber.fromNat h)).toArray).toArray),
+                ("keyerr", Json.arr ((keyErrors m0 (opsS spec "ops")).map Json.bool).toArray)]
   | "trace" =>
     let c : Cfg := ⟨outpOfName (getStr j "outp"), if getStr j "transport" == "wsgi" then .wsgi else .serverBase⟩
     let w := worldOf (getObj j "world")
